@@ -1256,7 +1256,10 @@ class FuncDiv(ValueFunc):
                 raise CklRuntimeError(
                     ValueString("ERROR"), "divide by zero", pos
                 )
-            return ValueInt(math.trunc(a.value / divisor))
+            quotient = abs(a.value) // abs(divisor)
+            if (a.value < 0) != (divisor < 0):
+                quotient = -quotient
+            return ValueInt(quotient)
 
         if a.isNumerical() and b.isNumerical():
             divisor = b.asDecimal().value
